@@ -207,6 +207,45 @@ Proof.
     apply in_flat_map. exists k. split; [assumption|]. now apply in_map.
 Qed.
 
+(* clients_exact: every service is listed once per client kind implied by the transports, with its client class — services
+   that declare no rpc included *)
+Lemma clients_in transport svcs s k c :
+  In (s, k, c) (metadata_clients transport svcs) <-> exists sv, In sv svcs /\ s_name sv = s /\ In (k, c) (kinds transport sv).
+Proof.
+  unfold metadata_clients. rewrite in_flat_map. split.
+  - intros (sv & Hsv & H). apply (Permutation_in _ (sort_by_perm s_name svcs)) in Hsv.
+    apply in_map_iff in H as ([k' c'] & E & Hk). inversion E; subst. exists sv. auto.
+  - intros (sv & Hsv & <- & Hk). exists sv. split; [apply (Permutation_in _ (Permutation_sym (sort_by_perm s_name svcs))), Hsv|].
+    apply in_map_iff. exists (k, c). auto.
+Qed.
+Lemma clients_nodup transport svcs : NoDup (map s_name svcs) ->
+  NoDup (map (fun e => (fst (fst e), snd (fst e))) (metadata_clients transport svcs)).
+Proof.
+  intro ND. unfold metadata_clients. rewrite flat_map_concat_map, concat_map, map_map, <- flat_map_concat_map.
+  apply (NoDup_flat_map_tagged _ s_name (@fst string string)).
+  - eapply Permutation_NoDup; [apply Permutation_map, Permutation_sym, sort_by_perm | exact ND].
+  - intros sv _. rewrite map_map. cbn [fst snd].
+    apply NoDup_map_inj_on; [|apply (NoDup_of_map (@fst string string)), kinds_keys_nodup].
+    intros x y Hx Hy E. inversion E as [E']. pose proof (kinds_keys_nodup transport sv) as NK.
+    clear - NK Hx Hy E'. induction (kinds transport sv) as [|a l IH]; [contradiction|].
+    simpl in NK. inversion NK as [|? ? Hna ND]; subst.
+    destruct Hx as [->|Hx], Hy as [->|Hy]; auto.
+    + exfalso. apply Hna. rewrite E'. now apply in_map.
+    + exfalso. apply Hna. rewrite <- E'. now apply in_map.
+  - intros sv b _ Hb. rewrite map_map in Hb. apply in_map_iff in Hb as (k & <- & _). reflexivity.
+Qed.
+Lemma clients_exact transport svcs :
+  (forall s k c, In (s, k, c) (metadata_clients transport svcs) <->
+                 exists sv, In sv svcs /\ s_name sv = s /\ In (k, c) (kinds transport sv)) /\
+  (NoDup (map s_name svcs) -> NoDup (map (fun e => (fst (fst e), snd (fst e))) (metadata_clients transport svcs))).
+Proof. split; [intros; apply clients_in | apply clients_nodup]. Qed.
+Example clients_empty_service :
+  metadata_clients ["grpc"; "rest"] [mkS "Placeholder" []; mkS "Lib" [mkR "Get" false true []]] =
+  [("Lib", "grpc", "LibClient"); ("Lib", "grpc-async", "LibAsyncClient"); ("Lib", "rest", "LibClient");
+   ("Placeholder", "grpc", "PlaceholderClient"); ("Placeholder", "grpc-async", "PlaceholderAsyncClient");
+   ("Placeholder", "rest", "PlaceholderClient")].
+Proof. vm_compute. reflexivity. Qed.
+
 (* ---------- legacy_flattened_fields ---------- *)
 Definition nonreq (f : field) : bool := negb (f_required f).
 
